@@ -817,11 +817,29 @@ func (c *Ctx) checkMapLookup(s *obSink) (binaryExcluded bool, ok bool) {
 			}
 		}
 	}
-	if fn == nil || descParam(fn) == nil {
+	if fn == nil {
 		s.bad("updateMapAppendFunc", "-", "no function looks fast paths up in mapAppendFuncs")
 		return false, false
 	}
-	t := descParam(fn).Name()
+	t := ""
+	if dp := descParam(fn); dp != nil {
+		t = dp.Name()
+	} else {
+		// the lookup written out where the descriptor is built: the descriptor is the variable the key is read from
+		for _, b := range fn.Blocks {
+			for _, in := range b.Instrs {
+				if lk, isLk := in.(*ssa.Lookup); isLk && path(lk.X) == "reflect.mapAppendFuncs" {
+					if kp := keyFields(fn, lk.Index)["k"]; strings.HasSuffix(kp, ".K.T") {
+						t = strings.TrimSuffix(kp, ".K.T")
+					}
+				}
+			}
+		}
+		if t == "" {
+			s.bad("updateMapAppendFunc", "-", "no function looks fast paths up in mapAppendFuncs with the key kind of a descriptor")
+			return false, false
+		}
+	}
 	// the lookup may live in a helper that receives the key and value descriptors: read its parameters as the caller's
 	// t.K and t.V when every call site passes exactly those
 	norm := func(p string) string { return p }
@@ -936,6 +954,46 @@ func (c *Ctx) checkMapLookup(s *obSink) (binaryExcluded bool, ok bool) {
 		}
 		return false, path(v)
 	}
+	// binary values may also be kept off the table after the lookup: the table entry reaches the installed value only on
+	// an edge where the value tag is known not to be binary
+	notBinaryAt := func(p *ssa.BasicBlock, succ *ssa.BasicBlock) bool {
+		tb, hasBin := c.constOf(pkgDefs, "T_binary")
+		cs := domConds(p)
+		if iff, ok := p.Instrs[len(p.Instrs)-1].(*ssa.If); ok && p.Succs[0] != p.Succs[1] {
+			cs = append(cs, Cond{V: iff.Cond, Truth: p.Succs[0] == succ, If: iff})
+		}
+		for _, cd := range cs {
+			bo, isB := cd.V.(*ssa.BinOp)
+			if !isB || bo.Op != token.EQL && bo.Op != token.NEQ {
+				continue
+			}
+			cv, isC := constInt(bo.Y)
+			if !isC || !hasBin || cv != tb || norm(path(bo.X)) != t+".V.Tag" {
+				continue
+			}
+			if (bo.Op == token.EQL && !cd.Truth) || (bo.Op == token.NEQ && cd.Truth) {
+				return true
+			}
+		}
+		return false
+	}
+	var entryEdgesGuarded func(v ssa.Value, at, succ *ssa.BasicBlock) (n int, all bool)
+	entryEdgesGuarded = func(v ssa.Value, at, succ *ssa.BasicBlock) (int, bool) {
+		v = strip(v)
+		if phi, isPhi := v.(*ssa.Phi); isPhi {
+			n, all := 0, true
+			for i, e := range phi.Edges {
+				k, a := entryEdgesGuarded(e, phi.Block().Preds[i], phi.Block())
+				n += k
+				all = all && a
+			}
+			return n, all
+		}
+		if _, isF := v.(*ssa.Function); isF {
+			return 0, true
+		}
+		return 1, notBinaryAt(at, succ)
+	}
 	nSel := 0
 	for _, b := range fn.Blocks {
 		for _, in := range b.Instrs {
@@ -943,6 +1001,12 @@ func (c *Ctx) checkMapLookup(s *obSink) (binaryExcluded bool, ok bool) {
 			case *ssa.Store:
 				if !strings.HasSuffix(path(x.Addr), ".AppendFunc") {
 					continue
+				}
+				if fn.Name() != "updateMapAppendFunc" && !strings.Contains(fmt.Sprint(selectedSources(x.Val)), "map") {
+					continue // the constructor also installs the list routine
+				}
+				if n, all := entryEdgesGuarded(x.Val, b, nil); n > 0 && all {
+					binaryExcluded = true
 				}
 				nSel++
 				selAt = b
@@ -1571,23 +1635,94 @@ func ruleT5(c *Ctx) []Ob {
 	}
 	// lookup: listAppendFuncs[t.V.T]; store: table entry or appendListAny
 	sp := c.SSA[pkgReflect]
-	if fn := sp.Func("updateListAppendFunc"); fn != nil {
-		t := fn.Params[0].Name()
+	var lfn *ssa.Function
+	for _, cand := range c.ModuleFuncs(pkgReflect) {
+		for _, b := range cand.Blocks {
+			for _, in := range b.Instrs {
+				if lk, isLk := in.(*ssa.Lookup); isLk && path(lk.X) == "reflect.listAppendFuncs" {
+					lfn = cand
+				}
+			}
+		}
+	}
+	if fn := lfn; fn != nil {
+		// the descriptor is whatever the lookup key is read from: <t>.V.T (a parameter today; a local of the constructor when
+		// the helper is written out there)
+		t := ""
 		found := false
 		for _, b := range fn.Blocks {
 			for _, in := range b.Instrs {
 				if lk, ok := in.(*ssa.Lookup); ok && path(lk.X) == "reflect.listAppendFuncs" {
 					found = true
-					s.check(path(lk.Index) == t+".V.T", "updateListAppendFunc.lookup", c.InstrPos(lk), "looks up t.V.T", "lookup key is "+path(lk.Index)+", expected "+t+".V.T")
-				}
-				if st, ok := in.(*ssa.Store); ok && path(st.Addr) == t+".AppendFunc" {
-					v := strip(st.Val)
-					good, what := false, path(v)
-					if f, isF := v.(*ssa.Function); isF {
-						good, what = f.Name() == "appendListAny", f.Name()
-					} else if isTableEntry(v, st.Block()) {
-						good, what = true, "table entry"
+					kp := path(lk.Index)
+					if strings.HasSuffix(kp, ".V.T") {
+						t = strings.TrimSuffix(kp, ".V.T")
 					}
+					s.check(t != "", "updateListAppendFunc.lookup", c.InstrPos(lk), "looks up t.V.T", "lookup key is "+kp+", expected the element kind <t>.V.T of the descriptor being completed")
+				}
+			}
+		}
+		var sel func(v ssa.Value, at *ssa.BasicBlock) (bool, string)
+		sel = func(v ssa.Value, at *ssa.BasicBlock) (bool, string) {
+			v = strip(v)
+			if phi, isPhi := v.(*ssa.Phi); isPhi {
+				var whats []string
+				for i, e := range phi.Edges {
+					g, w := sel(e, phi.Block().Preds[i])
+					if !g {
+						return false, w
+					}
+					whats = append(whats, w)
+				}
+				return len(phi.Edges) > 0, strings.Join(dedup(whats), " or ")
+			}
+			if f, isF := v.(*ssa.Function); isF {
+				return f.Name() == "appendListAny", f.Name()
+			}
+			if isTableEntry(v, at) {
+				return true, "table entry"
+			}
+			if _, isEx := v.(*ssa.Extract); isEx && isTableEntry(v, nil) {
+				return true, "table entry"
+			}
+			return false, path(v)
+		}
+		for _, b := range fn.Blocks {
+			for _, in := range b.Instrs {
+				if st, ok := in.(*ssa.Store); ok && t != "" && path(st.Addr) == t+".AppendFunc" {
+					// only the store that completes a list / set descriptor (the constructor also installs the map routine)
+					if fn.Name() != "updateListAppendFunc" {
+						uses := false
+						var walk func(v ssa.Value, d int)
+						walk = func(v ssa.Value, d int) {
+							if d > 6 || v == nil {
+								return
+							}
+							switch x := v.(type) {
+							case *ssa.Phi:
+								for _, e := range x.Edges {
+									walk(e, d+1)
+								}
+							case *ssa.Extract:
+								if lk, ok := x.Tuple.(*ssa.Lookup); ok && path(lk.X) == "reflect.listAppendFuncs" {
+									uses = true
+								}
+							case *ssa.Lookup:
+								if path(x.X) == "reflect.listAppendFuncs" {
+									uses = true
+								}
+							case *ssa.Function:
+								if x.Name() == "appendListAny" {
+									uses = true
+								}
+							}
+						}
+						walk(strip(st.Val), 0)
+						if !uses {
+							continue
+						}
+					}
+					good, what := sel(st.Val, st.Block())
 					s.check(good, "updateListAppendFunc.store", c.InstrPos(st), "AppendFunc = "+what, "AppendFunc set to "+what)
 				}
 			}
@@ -1687,4 +1822,40 @@ func init() {
 		}
 		s.check(storesAppendFuncFrom(ctor, allocBlk, 0), "AppendFunc:total", c.Pos(ctor.Pos()), "every path of "+ctor.Name()+" installs an encode routine", "a descriptor can leave "+ctor.Name()+" without an encode routine (AppendFunc nil for some kind): the generic map/list routines and the (DOUBLE, scalar) map fast paths call the key/value descriptor's AppendFunc for scalar kinds as well and would call a nil function")
 	})
+}
+
+// selectedSources names what a stored routine value is chosen from (tables and functions), for telling the list store from
+// the map store when both live in one function.
+func selectedSources(v ssa.Value) []string {
+	var out []string
+	seen := map[ssa.Value]bool{}
+	var walk func(v ssa.Value, d int)
+	walk = func(v ssa.Value, d int) {
+		if v == nil || seen[v] || d > 8 {
+			return
+		}
+		seen[v] = true
+		switch x := strip(v).(type) {
+		case *ssa.Phi:
+			for _, e := range x.Edges {
+				walk(e, d+1)
+			}
+		case *ssa.Extract:
+			walk(x.Tuple, d+1)
+		case *ssa.Lookup:
+			if strings.Contains(path(x.X), "mapAppendFuncs") {
+				out = append(out, "map table")
+			} else {
+				out = append(out, "other table "+path(x.X))
+			}
+		case *ssa.Function:
+			if strings.Contains(x.Name(), "Map") {
+				out = append(out, "map routine "+x.Name())
+			} else {
+				out = append(out, "routine "+x.Name())
+			}
+		}
+	}
+	walk(v, 0)
+	return out
 }
